@@ -826,7 +826,9 @@ async fn early_search(net: Net, seed: u64) {
     let twin = search(&net, &dht, me, twin_sid, target, false);
     for (s, ann, h) in early {
         let _ = tokio::time::timeout(std::time::Duration::from_secs(120), h).await;
-        if !ann && !any_ann {
+        // (with unsendable nodes a round in which nothing could be sent ends the waiting for the other rounds' answers too, so what
+        // a search yields then depends on the instant it runs: no twin comparison in those runs)
+        if !ann && !any_ann && seed % 4 != 1 {
             net.log(json!({"ev":"Twin","node":addr_json(&me),"a":s,"b":twin_sid}));
         }
     }
